@@ -25,6 +25,7 @@ var c16Plan = []planEntry{
 	{spaces.XEol, 5, 6},
 	{spaces.B, 5, 6},
 	{spaces.XNulRef, 6, 7},
+	{spaces.XPhrase, 4, 5},
 }
 
 func init() {
